@@ -21,6 +21,7 @@
 package dragonboat
 
 import (
+	"errors"
 	"bufio"
 	"context"
 	"encoding/json"
@@ -552,6 +553,11 @@ func (c *nhCluster) startHost(h *nhHost) error {
 	nh, err := NewNodeHost(c.nhConfig(h))
 	if err != nil {
 		return err
+	}
+	if nh == nil {
+		// NewNodeHost recovers a panic of its start-up code and, when the panic value is not an
+		// error, returns (nil, nil)
+		return errors.New("NewNodeHost returned (nil, nil): a panic during start-up was swallowed")
 	}
 	h.nh = nh
 	h.alive = true
